@@ -20,7 +20,7 @@ mod lhs_masker;
 mod offset_cursor;
 
 use super::cgen;
-use comment_parsers::{JsDoc, Unit};
+use comment_parsers::{Go, JavaDoc, JsDoc, Unit};
 use lhs_masker::LiterateHaskellMasker;
 use offset_cursor::OffsetCursor;
 
@@ -310,6 +310,79 @@ pub fn eval_unit(jsdoc: bool, inner: InnerKind, text: &str) -> KOut {
     o
 }
 
+
+// ---------------------------------------------------------------------------------------------
+// (c2) JavaDoc (block-tag loop) and Go (directive handling)
+// ---------------------------------------------------------------------------------------------
+
+/// Which characters `JavaDoc::parse` hands to its (private, not injectable) HTML parser: the
+/// comment without its delimiters. Only used to tell the model WHICH chunk the recorded HTML
+/// tokens belong to; the model computes the chunk itself (`withoutInitiators`) and finds no tokens
+/// (a disagreement, never a masked bug) if the two differ.
+fn chunk_without_initiators(src: &[char]) -> &[char] {
+    let skip = |c: &char| matches!(*c, '#' | '-' | '/' | '*' | '!') || c.is_whitespace();
+    let start = src.iter().position(|c| !skip(c)).unwrap_or(src.len());
+    let end = src.len() - src.iter().rev().position(|c| !skip(c)).unwrap_or(0);
+    if start <= end { &src[start..end] } else { &src[0..0] }
+}
+
+pub fn eval_javadoc(text: &str) -> KOut {
+    let src: Vec<char> = text.chars().collect();
+    let chunk = chunk_without_initiators(&src);
+    // data: what harper-html (tree-sitter-html text nodes + PlainEnglish) makes of the chunk
+    let html = guarded(|| harper_html::HtmlParser::default().parse(chunk));
+    let run = match &html {
+        Ok(t) => format!(" | {} ; {}", chars_field(chunk), toks_show(t)),
+        Err(_) => String::new(),
+    };
+    let op = format!("javadoc | {}{}", ws_text_field(&src), run);
+    let p = JavaDoc::default();
+    let imp = match guarded(|| p.parse(&src)) {
+        Ok(t) => ok_toks(&t),
+        Err(_) => "panic".into(),
+    };
+    let mut o = kout(op, imp);
+    o.counts.push("javadoc".into());
+    if o.imp.contains("unl@") {
+        o.counts.push("javadoc:unlintable-marked".into());
+    }
+    // the last four tokens are a block tag: the window the loop must not forget
+    if let Ok(t) = &html {
+        let n = t.len();
+        if n >= 4 && t[n - 4].kind.is_at() && t[n - 3].kind.is_word() && t[n - 2].kind.is_space() && t[n - 1].kind.is_word() {
+            o.counts.push("javadoc:block-tag-in-last-window".into());
+        }
+    }
+    o.nontrivial = o.imp.contains("unl@") && o.imp.contains("word@");
+    o
+}
+
+pub fn eval_gopar(inner: InnerKind, text: &str) -> KOut {
+    let src: Vec<char> = text.chars().collect();
+    fn go<P: Parser + 'static>(rec: Lrc<Recorder<P>>, src: &[char]) -> (Result<Vec<Token>, String>, String) {
+        let p = Go::new(rec.clone());
+        let r = guarded(|| p.parse(src));
+        (r, rec.runs_field())
+    }
+    let (r, runs) = match inner {
+        InnerKind::Spy => go(Lrc::new(Recorder::new(Spy)), &src),
+        InnerKind::Plain => go(Lrc::new(Recorder::new(PlainEnglish)), &src),
+        InnerKind::Markdown => go(Lrc::new(Recorder::new(Markdown::default())), &src),
+    };
+    let op = format!("gopar | {}{}", ws_text_field(&src), runs);
+    let imp = match r {
+        Ok(t) => ok_toks(&t),
+        Err(_) => "panic".into(),
+    };
+    let mut o = kout(op, imp);
+    o.counts.push("gopar".into());
+    if text.contains("go:") {
+        o.counts.push(if o.imp == "panic" { "gopar:directive-panic".into() } else if o.imp == "ok" { "gopar:directive-no-tokens".into() } else { "gopar:directive-tokens".into() });
+    }
+    o.nontrivial = text.contains("go:") && text.contains('\n');
+    o
+}
+
 // ---------------------------------------------------------------------------------------------
 // (d) Literate Haskell masker
 // ---------------------------------------------------------------------------------------------
@@ -442,6 +515,8 @@ enum Job {
     Mws(String, Vec<(usize, usize)>),
     MaskParse(String, Vec<(usize, usize)>),
     Unit(bool, InnerKind, String),
+    JavaDoc(String),
+    GoPar(InnerKind, String),
     Lhs(bool, String),
     GitCut(String),
     Cursor(String, Vec<usize>),
@@ -454,6 +529,8 @@ fn run_job(j: &Job) -> KOut {
         Job::Mws(t, s) => eval_mws(t, s),
         Job::MaskParse(t, s) => eval_maskparse(t, s),
         Job::Unit(js, k, t) => eval_unit(*js, *k, t),
+        Job::JavaDoc(t) => eval_javadoc(t),
+        Job::GoPar(k, t) => eval_gopar(*k, t),
         Job::Lhs(c, t) => eval_lhs(*c, t),
         Job::GitCut(t) => eval_gitcut(t),
         Job::Cursor(t, p) => eval_cursor(t, p),
@@ -467,6 +544,8 @@ fn job_json(j: &Job) -> Value {
         Job::Mws(t, s) => json!({"kop": "mws", "text": t, "spans": s}),
         Job::MaskParse(t, s) => json!({"kop": "maskparse", "text": t, "spans": s}),
         Job::Unit(js, k, t) => json!({"kop": if *js { "jsdoc" } else { "unit" }, "inner": match k { InnerKind::Spy => "spy", InnerKind::Plain => "plain", InnerKind::Markdown => "markdown" }, "text": t}),
+        Job::JavaDoc(t) => json!({"kop": "javadoc", "text": t}),
+        Job::GoPar(_, t) => json!({"kop": "gopar", "text": t}),
         Job::Lhs(c, t) => json!({"kop": "lhs", "code": c, "text": t}),
         Job::GitCut(t) => json!({"kop": "gitcut", "text": t}),
         Job::Cursor(t, p) => json!({"kop": "cursor", "text": t, "pushes": p}),
@@ -584,6 +663,64 @@ fn comment_text(rng: &mut Rng) -> String {
     s
 }
 
+/// the text of one Java doc comment: block tags and inline tags at every position
+fn javadoc_text(rng: &mut Rng) -> String {
+    let mut s = String::from(*rng.pick(&["/**", "/** ", "/*", "//", ""]));
+    let lines = rng.range(1, 4);
+    for i in 0..lines {
+        if i > 0 || rng.chance(1, 2) {
+            s.push_str(*rng.pick(&["\n * ", "\n   * ", "\n", "\r\n * ", "\n *"]));
+        }
+        let items = rng.range(1, 3);
+        for k in 0..items {
+            if k > 0 {
+                s.push(' ');
+            }
+            match rng.below(9) {
+                0 | 1 => s.push_str(&format!("{} {}", rng.pick(&["@param", "@throws", "@see", "@return"]), rng.pick(&["zqx", "IOException", "Reader", "fóo"]))),
+                2 => s.push_str(*rng.pick(&["@deprecated", "@", "@ x", "@return"])),
+                3 => s.push_str(&format!("{{@link {}}}", rng.pick(&["Fóo", "Bar#baz"]))),
+                4 => s.push_str(*rng.pick(&["{@code x}", "{@link Foo", "{@", "}"])),
+                5 => s.push_str(*rng.pick(&["<p>", "</p>", "<b>x</b>", "&amp;", "<code>é</code>"])),
+                6 => s.push_str(&cgen::hostile(rng)),
+                _ => {
+                    let n = rng.range(1, 3);
+                    for j in 0..n {
+                        if j > 0 {
+                            s.push(' ');
+                        }
+                        s.push_str(*rng.pick(cgen::WORDS));
+                    }
+                }
+            }
+        }
+    }
+    s.push_str(*rng.pick(&["\n */", " */", "*/", "", "\n"]));
+    s
+}
+
+/// the text of one (merged) Go comment block, often starting with a directive
+fn go_text(rng: &mut Rng) -> String {
+    let mut s = String::from(*rng.pick(&["//go:", "// go:", "//go:generate ", "/*go:", "//go:build linux", "//"]));
+    s.push_str(*rng.pick(&["", "x", "zqtool -x wörd", " "]));
+    let lines = rng.range(0, 3);
+    for _ in 0..lines {
+        s.push_str(*rng.pick(&["\n", "\r\n"]));
+        s.push_str(*rng.pick(&["//", "// ", "", "//\t", " * "]));
+        match rng.below(4) {
+            0 => {}
+            1 => s.push_str(&cgen::hostile(rng)),
+            _ => {
+                s.push_str(*rng.pick(cgen::WORDS));
+                s.push(' ');
+                s.push_str(*rng.pick(cgen::WORDS));
+            }
+        }
+    }
+    s.push_str(*rng.pick(&["", "", "\n", " */"]));
+    s
+}
+
 fn lhs_text(rng: &mut Rng) -> String {
     let lines = rng.range(0, 8);
     let mut s = String::new();
@@ -618,6 +755,8 @@ pub fn replay(sess: &mut Session, v: &Value) {
         "maskparse" => Job::MaskParse(text, spans),
         "unit" => Job::Unit(false, inner, text),
         "jsdoc" => Job::Unit(true, inner, text),
+        "javadoc" => Job::JavaDoc(text),
+        "gopar" => Job::GoPar(inner, text),
         "lhs" => Job::Lhs(v["code"].as_bool().unwrap_or(false), text),
         "gitcut" => Job::GitCut(text),
         "cursor" => Job::Cursor(text, v["pushes"].as_array().map(|a| a.iter().map(|p| p.as_u64().unwrap_or(0) as usize).collect()).unwrap_or_default()),
@@ -650,6 +789,17 @@ pub fn run(ctx: &Ctx, sess: &mut Session, rng: &mut Rng) {
         for k in [InnerKind::Spy, InnerKind::Plain, InnerKind::Markdown] {
             jobs.push(Job::Unit(false, k, t.to_string()));
             jobs.push(Job::Unit(true, k, t.to_string()));
+        }
+    }
+    for t in [
+        "/** @see Reader */", "/**\n * the fox\n * @throws IOException\n */", "/**\n * @param zqx the value\n * @return the value\n */", "/** @deprecated */",
+        "/**\n * {@code x} the {@link Foo} fox\n * see {@link Foo\n */", "@a b", "@a b c", "x @a b", "@a b @c d", "@a  b", "@a\n * b", "/** <p>the @see Reader</p> */",
+    ] {
+        jobs.push(Job::JavaDoc(t.to_string()));
+    }
+    for t in ["//go:x\n//", "//go:generate zq", "//go:build linux\n// the fox", "// the fox\n//go:generate x", "/* go:x\n y */", "//go:x\n", "//go:\n\n//", "go:x\ny"] {
+        for k in [InnerKind::Spy, InnerKind::Plain, InnerKind::Markdown] {
+            jobs.push(Job::GoPar(k, t.to_string()));
         }
     }
     for t in [
@@ -689,6 +839,15 @@ pub fn run(ctx: &Ctx, sess: &mut Session, rng: &mut Rng) {
     let js_alpha = ["{", "@", "a", "}", " ", "\n", "*"];
     for t in all_strings(&js_alpha, if thorough { 6 } else { 5 }) {
         jobs.push(Job::Unit(true, InnerKind::Plain, t));
+    }
+    // JavaDoc block tags: every text of ≤5 (quick) / ≤6 (thorough) pieces over `@ a space newline * { }`
+    // — every position of an `@a a` window, the last one included
+    for t in all_strings(&["@", "a", " ", "\n", "*", "{", "}"], if thorough { 6 } else { 5 }) {
+        jobs.push(Job::JavaDoc(t));
+    }
+    // Go directives: every text of ≤5 (quick) / ≤6 (thorough) pieces
+    for t in all_strings(&["//", "go:", "a", " ", "\n", "*"], if thorough { 6 } else { 5 }) {
+        jobs.push(Job::GoPar(InnerKind::Spy, t));
     }
     // Literate Haskell: every list of ≤4 (quick) / ≤5 (thorough) lines
     let lhs_lines = ["", ">", "> x", "x", "\\begin{code}", "\\end{code}", " ", ">é"];
@@ -751,6 +910,11 @@ pub fn run(ctx: &Ctx, sess: &mut Session, rng: &mut Rng) {
     }
     for i in 0..n {
         jobs.push(Job::Lhs(i % 3 == 0, lhs_text(rng)));
+    }
+    for i in 0..n {
+        jobs.push(Job::JavaDoc(javadoc_text(rng)));
+        let t = if i % 2 == 0 { go_text(rng) } else { comment_text(rng) };
+        jobs.push(Job::GoPar(match i % 3 { 0 => InnerKind::Markdown, 1 => InnerKind::Plain, _ => InnerKind::Spy }, t));
     }
     for _ in 0..n / 4 {
         jobs.push(Job::GitCut(cgen::gen_git_commit(rng, false).text));
